@@ -124,6 +124,14 @@ class Runner:
             # a real client polls again unless told to stop; NOOP-only
             # answers during an upgrade do not restart the poll loop
             if not all(p[0] == 6 for p in tk.packets):
+                s.noop_only = 0
+                self.poll(s)
+            elif s.up_state not in ('started', 'probed') and \
+                    getattr(s, 'noop_only', 0) < 3:
+                # a NOOP outside an upgrade does not pause the poll loop
+                # (bounded, so that a server answering NOOP forever cannot
+                # make the reference client spin)
+                s.noop_only = getattr(s, 'noop_only', 0) + 1
                 self.poll(s)
 
     def _on_frame(self, s, ws, frame, established):
